@@ -1,5 +1,6 @@
 """C19 — parser and CLI conversion hand the verifier exactly what the file says."""
 import json
+import exprtree
 import os
 import re
 import cfg as cfgmod
@@ -108,6 +109,7 @@ def run(ctx, rep):
     orders(ctx, pdb, rep, R)
     pattern_template(pdb, rep)
     derived_logs(pdb, rep)
+    parser_mapping(pdb, rep, R)
     seen_transform = set()
     for cname in ctx.cli_configs():
         cdb = ctx.db(cname)
@@ -119,6 +121,7 @@ def run(ctx, rep):
         seen_transform |= set(R2)
         inventory(cdb, rep, new, safe, 'cli', cname)
         conversion_flow(cdb, rep, cname)
+        conversion_fields(cdb, rep, cname, ts)
 
 
 def swallowed(db, rep, R):
@@ -339,3 +342,142 @@ def derived_logs(pdb, rep):
             if (t['f'].get('resolved') or '') == cands[0]:
                 uses += 1
     rep.floor('C19.log2', 'uses of log2_if_power_of_2', uses, 3)
+
+
+def conversion_fields(cdb, rep, cname, impls):
+    """field-to-field: in every TransformTo impl, field k of the value built is computed from field k of the value
+    converted and from nothing else of it (the parser's and the verifier's types carry the same field names); where a
+    struct is built from an indexed source (`header[0]`, `header[1]`, ..) the i-th declared field takes element i."""
+    n = 0
+    for p in impls:
+        fn = cdb.fns[p]
+        if not fn.has_mir:
+            continue
+        short = p.split(' as ')[0].lstrip('<').split('::')[-1]
+        for body in common.bodies(cdb, fn):
+            if not body.has_mir or body.compact:
+                continue
+            fl = dataflow.Flow(cdb, body)
+            for b in body.blocks:
+                if b.get('cleanup'):
+                    continue
+                for st in b['stmts']:
+                    if st['k'] != 'assign' or st['rv'].get('k') != 'agg' or st['rv'].get('agg') != 'adt' or not st['rv'].get('fields'):
+                        continue
+                    adt = st['rv'].get('adt', '')
+                    if adt.startswith(('core::', 'alloc::')) or 'Error' in adt:
+                        continue
+                    names = st['rv']['fields']
+                    idxs = []
+                    for k, o in zip(names, st['rv']['ops']):
+                        lv = fl.operand_leaves(o)
+                        src = {re.sub(r'\[\*\]', '', x).split('.')[1] for x in lv if re.match(r'^a1\.', x)} if body is fn else set()
+                        ix = sorted(x for x in lv if x.startswith('idx:'))
+                        idxs.append(ix)
+                        if body is fn and src and not k.isdigit():      # newtype wrappers (Page(..)) have no field name to match
+                            n += 1
+                            rep.ob('C19.fields', f'{short}.{k}', src == {k},
+                                   f'{adt.split("::")[-1]}.{k} is built from field(s) {sorted(src)} of the parsed {short}' +
+                                   ('' if src == {k} else f' (expected only `{k}`)'), body.loc(st['line']), cname)
+                    # constant indices read off the def-use trees (place projections carry no idx: leaf)
+                    T_ = exprtree.Trees(cdb, body)
+
+                    def const_index(tr):
+                        if isinstance(tr, tuple) and tr and tr[0] == 'proj' and isinstance(tr[2], tuple):
+                            if tr[2][0] == 'idx' and isinstance(tr[2][1], tuple) and tr[2][1][0] == 'val':
+                                return tr[2][1][1], tr[1]
+                            if tr[2][0] == 'cidx':
+                                return tr[2][1], tr[1]
+                        return None
+                    cis = [const_index(T_.operand(o)) for o in st['rv']['ops']]
+                    for k, ci in zip(names, cis):
+                        if ci is not None and 'to_u64_digits' in exprtree.show(ci[1]):
+                            n += 1
+                            rep.ob('C19.fields', f'{short}.{k}[digit]', ci[0] == 0,
+                                   f'{adt.split("::")[-1]}.{k} takes 64-bit digit {ci[0]} of {exprtree.show(ci[1])[:60]} (the least significant digit is 0)',
+                                   body.loc(st['line']), cname)
+                    if len(names) >= 2 and all(ci is not None for ci in cis) and len({repr(ci[1]) for ci in cis}) == 1:
+                        got = [str(ci[0]) for ci in cis]
+                        want = [str(i) for i in range(len(names))]
+                        n += 1
+                        rep.ob('C19.fields', f'{short}/{adt.split("::")[-1]}[indexed]', got == want,
+                               f'{adt.split("::")[-1]} fields {names} take elements {got} of their source (expected {want}: declaration order)',
+                               body.loc(st['line']), cname)
+    rep.floor('C19.fields', f'converted fields checked [{cname}]', n, 40)
+
+
+def _sig(pdb, lv):
+    import guardtable as GT
+    out = set()
+    for x in GT.norm_side(pdb, lv):
+        if x.startswith(('op:', 'val:', 'lit:', 'idx:')):
+            out.add(x)
+        elif re.match(r'^a\d', x):
+            out.add(fieldflow.canon(x))
+        elif x.startswith('const:'):
+            out.add(x.split('=')[0])
+    return sorted(out)
+
+
+def parser_signatures(pdb, R=None):
+    """{function: {'<Adt>.<field>' | 'ret': signature}} over the parser functions reachable from parse()"""
+    R = R or pdb.reach([PARSE])
+    out = {}
+    for p in sorted(R):
+        fn = pdb.fns[p]
+        if not fn.has_mir or fn.compact or not p.startswith(('swiftness_proof_parser::', '<swiftness_proof_parser::')):
+            continue
+        if '{closure' in p and False:
+            continue
+        fl = dataflow.Flow(pdb, fn)
+        d = {}
+        for b in fn.blocks:
+            if b.get('cleanup'):
+                continue
+            for st in b['stmts']:
+                if st['k'] == 'assign' and st['rv'].get('k') == 'agg' and st['rv'].get('agg') == 'adt' and st['rv'].get('fields'):
+                    adt = st['rv'].get('adt', '')
+                    if adt.startswith(('core::', 'alloc::', 'anyhow')):
+                        continue
+                    for k, o in zip(st['rv']['fields'], st['rv']['ops']):
+                        key = f'{adt.split("::")[-1]}.{k}'
+                        d[key] = sorted(set(d.get(key, [])) | set(_sig(pdb, fl.operand_leaves(o))))
+        d['ret'] = _sig(pdb, fl.ret_ok if cfgmod.returns_result(fn) else fl.leaves(0))
+        # which comparisons the function makes (== versus != is invisible in the leaf sets)
+        cm = [t['f'].get('name') for _, t in fn.calls() if t['f'].get('name') in ('eq', 'ne', 'lt', 'le', 'gt', 'ge')]
+        cm += [st['rv']['op'].lower() for b in fn.blocks if not b.get('cleanup') for st in b['stmts']
+               if st['k'] == 'assign' and st['rv'].get('k') == 'bin' and st['rv']['op'] in ('Eq', 'Ne', 'Lt', 'Le', 'Gt', 'Ge')]
+        d['comparisons'] = sorted(cm)
+        out[p] = d
+    return out
+
+
+def parser_mapping(pdb, rep, R):
+    """what the parser derives from the file: for every function of the parser that existed on the pinned tree, each struct
+    field it builds and its return value are computed from the same source fields, operations, constants (by value) and
+    constant indices (tables/c19_parser_signatures.json). Renamed temporaries, reordered statements and operand order do
+    not matter; another field, operation, constant or index does."""
+    path = os.path.join(os.path.dirname(SAFE_PATH), 'c19_parser_signatures.json')
+    if not os.path.exists(path):
+        rep.fail_closed('C19.mapping', 'tables/c19_parser_signatures.json missing')
+        return
+    with open(path) as fh:
+        want = json.load(fh)['functions']
+    cur = parser_signatures(pdb, R)
+    n = 0
+    for p, d in sorted(want.items()):
+        c = cur.get(p)
+        if c is None:
+            continue        # function removed / renamed / inlined: a refactor, its callers are compared instead
+        diffs = []
+        for key, sig in sorted(d.items()):
+            if key not in c:
+                continue
+            n += 1
+            if c[key] != sig:
+                add = sorted(set(c[key]) - set(sig))
+                gone = sorted(set(sig) - set(c[key]))
+                diffs.append(f'{key}: now also from {add[:4]}, no longer from {gone[:4]}')
+        rep.ob('C19.mapping', p, not diffs, f'{p.split("::")[-1]}: {len(d)} derived values' + (' as confirmed' if not diffs else '; changed: ' + '; '.join(diffs[:3])),
+               pdb.fns[p].loc(), 'parser')
+    rep.floor('C19.mapping', 'derived values compared with the table', n, 60)
